@@ -246,6 +246,70 @@ def sortNodesM (env : Env α) (keys : List Key) (nodes : List α) : Caches × Li
     (c, s.map (·.1))
   else (Caches.empty, nodes)
 
+/-! ### the sorter as state that outlives one sort
+`StylesheetExecutionContextDefault` owns ONE `NodeSorter` (`m_nodeSorter`, getNodeSorter()), `XalanTransformer` keeps that
+execution context between transformations and `reset()` does not touch the sorter.  What survives from one sort to
+the next is therefore exactly what the four `CollectionClearGuard` objects clear: the two result caches
+(NodeSorter.cpp:64-65 in `sort()`), the scratch vector (NodeSorter.cpp:98 in `sort(list)`) and the key vector
+(ElemForEach.cpp:361 in `sortChildren`).  A guard is a destructor: it runs when the scope is left normally AND when
+an exception (a run-time error in a key expression or in an AVT of a later xsl:sort) propagates through it. -/
+
+structure Sorter (α : Type) where
+  caches : Caches := {}
+  /-- `m_keys` -/
+  keys : List Key := []
+  /-- `m_scratchVector` -/
+  scratch : List (Entry α) := []
+
+def Sorter.Clean (s : Sorter α) : Prop := s.caches = Caches.empty ∧ s.keys = [] ∧ s.scratch = []
+
+/-- how a sort can end early: an exception is thrown while the sorter holds these caches (any state the
+comparator calls made so far left them in) -/
+abbrev Abort := Option Caches
+
+/-- what the destructors of the four guards do -/
+def Sorter.guards (_ : Sorter α) : Sorter α := {}
+
+/-- one `sortChildren` + `NodeSorter::sort` on the shared sorter.  The sort starts from whatever the sorter
+holds (it does NOT clear anything at entry): `keys.push_back` appends to `m_keys`, the scratch vector is appended
+to, the comparator reads the caches as they are.  `none` = the transformation fails with an error. -/
+def sortOnce (env : Env α) (keys : List Key) (nodes : List α) (abort : Abort) (s : Sorter α) :
+    Sorter α × Option (List α) :=
+  let keys' := s.keys ++ keys
+  let scratch' := s.scratch ++ scratch nodes
+  match abort with
+  | some c => (Sorter.guards { caches := c, keys := keys', scratch := scratch' }, none)
+  | none =>
+    if keys'.isEmpty == false then
+      let r := isortM env keys' nodes.length scratch' s.caches
+      (Sorter.guards { caches := r.1, keys := keys', scratch := r.2 }, some (r.2.map (·.1)))
+    else (Sorter.guards { caches := s.caches, keys := keys', scratch := scratch' }, some nodes)
+
+/-- the same with the caches cleared by plain `clear()` calls after `stable_sort` instead of guards
+(not the code: used only to show what the guards are for) -/
+def sortOnceNoCacheGuards (env : Env α) (keys : List Key) (nodes : List α) (abort : Abort) (s : Sorter α) :
+    Sorter α × Option (List α) :=
+  match abort with
+  | some c => ({ caches := c, keys := [], scratch := [] }, none)      -- the clear() calls are skipped
+  | none => sortOnce env keys nodes none s
+
+/-- a transformer's life: successive sorts, some of which abort -/
+structure SortReq (α : Type) where
+  env : Env α
+  keys : List Key
+  nodes : List α
+  abort : Abort
+
+def sortMany : Sorter α → List (SortReq α) → List (Option (List α))
+  | _, [] => []
+  | s, q :: rest => (sortOnce q.env q.keys q.nodes q.abort s).2 :: sortMany (sortOnce q.env q.keys q.nodes q.abort s).1 rest
+
+/-- do two of the nodes tie on all of these keys?  (A key expression placed after them is evaluated by a sort
+exactly when this holds: a comparison reaches key `j` only for two nodes that tie on keys `0 … j-1`.) -/
+def existsTie (env : Env α) (keys : List Key) : List α → Bool
+  | [] => false
+  | a :: rest => rest.any (fun b => specCompare env keys 0 a b == 0) || existsTie env keys rest
+
 /-- `createSelectedAndSortedNodeList`: sorting happens only with ≥ 1 xsl:sort and > 1 selected node -/
 def selectAndSort (env : Env α) (keys : List Key) (nodes : List α) : List α :=
   if keys.length > 0 && nodes.length > 1 then sortNodes env keys nodes else nodes
